@@ -60,22 +60,50 @@ def r17_isinstance_order(ctx, funcs, rule='R17', floor=1):
                    'superclass of a later one (bool before int, datetime before date), otherwise the later branch is dead and '
                    'the value is classified as the wrong type')
     n = 0
+    from sa.model import norm_guard
+    from sa.paths import Enumerator
     for fi in funcs:
-        for chain in isinstance_chains(fi.node):
-            subj = u(chain[0].args[0])
-            tests = [t for t in chain if u(t.args[0]) == subj]
+        # path form of the rule: on a path where isinstance(x, A) was answered False, a later isinstance(x, B) answered True
+        # with B a proper subclass of A is infeasible - that branch is dead (covers elif chains and `if ...: return` sequences)
+        per_subject = {}
+        bad = {}
+        if isinstance(fi.node, ast.Lambda):
+            continue
+        en_ = Enumerator(where=fi.qualname)
+        all_paths = list(en_.paths(fi.node.body))
+        for lp_ in ast.walk(fi.node):
+            if isinstance(lp_, (ast.For, ast.While)):
+                all_paths += list(en_.body_paths(lp_))
+        for p in all_paths:
+            neg = []
+            for t, pol in p.guards():
+                t, pol = norm_guard(t, pol)
+                if not (isinstance(t, ast.Call) and isinstance(t.func, ast.Name) and t.func.id == 'isinstance' and len(t.args) == 2):
+                    continue
+                subj = u(t.args[0])
+                lst = per_subject.setdefault(subj, [])
+                if not any(x is t for x in lst):
+                    lst.append(t)
+                if pol:
+                    for a in neg:
+                        if u(a.args[0]) != subj:
+                            continue
+                        for an, ac in _classes_of(ctx, a.args[1]):
+                            for bn, bc in _classes_of(ctx, t.args[1]):
+                                if ac is not None and bc is not None and ac is not bc and issubclass(bc, ac):
+                                    bad.setdefault(subj, (an, bn, t))
+                else:
+                    neg.append(t)
+        for subj, tests in per_subject.items():
+            if len(tests) < 2:
+                continue
             n += 1
-            bad = []
-            for i, a in enumerate(tests):
-                for b in tests[i + 1:]:
-                    for an, ac in _classes_of(ctx, a.args[1]):
-                        for bn, bc in _classes_of(ctx, b.args[1]):
-                            if ac is not None and bc is not None and ac is not bc and issubclass(bc, ac):
-                                bad.append((an, bn, b))
-            run.check(not bad, rule, where(ctx.repo, chain[0]), fi.qualname,
+            tests = sorted(tests, key=lambda t: (t.lineno, t.col_offset))
+            b = bad.get(subj)
+            run.check(b is None, rule, where(ctx.repo, tests[0]), fi.qualname,
                       'isinstance chain on %s: %s' % (subj, ' / '.join(u(t.args[1]) for t in tests)),
                       'isinstance(%s, %s) is tested before the more specific %s: the later branch can never be taken'
-                      % ((subj,) + bad[0][:2] if bad else ('', '', '')))
+                      % ((subj,) + b[:2] if b else ('', '', '')))
     run.floor(rule, n, floor, 'isinstance chains')
     return n
 
